@@ -8,6 +8,8 @@ use crate::filter::{CombinedFilter, FilterTrait};
 use crate::storage::{BlobRecordTimestamp, ReadResult};
 
 use super::prelude::*;
+#[cfg(pearl_verif)]
+use crate::verif::ASRwLock;
 
 use super::{header::Header, index::IndexTrait};
 
@@ -70,6 +72,10 @@ where
             created_at: SystemTime::now(),
             validate_data_during_index_regen,
         };
+        #[cfg(pearl_verif)]
+        {
+            blob.created_at = crate::verif::blob_created_at(blob.created_at);
+        }
         blob.write_header().await?;
         Ok(blob)
     }
@@ -176,6 +182,8 @@ where
         trace!("index initialized");
         let header_size = bincode::serialized_size(&header)?;
         let created_at = file.created_at()?;
+        #[cfg(pearl_verif)]
+        let created_at = crate::verif::blob_created_at(created_at);
         let mut blob = Self {
             header,
             file,
